@@ -108,6 +108,20 @@ func genC16(ctx *Ctx) {
 	for i := 0; i < n3; i++ {
 		emit([]string{strs[ctx.Rnd.Intn(len(strs))], strs[ctx.Rnd.Intn(len(strs))], strs[ctx.Rnd.Intn(len(strs))]})
 	}
+	// long symbols (4 .. 17 characters) that differ only in their last character, each read several times in turns
+	for _, plen := range []int{3, 4, 5, 7, 8, 15, 16} {
+		pre := strings.Repeat("=<>", 6)[:plen]
+		syms := []string{pre + "a", pre + "b", pre + "é", pre}
+		var regs, ins sx.List
+		for i, sy := range syms {
+			regs = append(regs, sx.L(sx.S(sy), sx.I(types[i%len(types)])))
+		}
+		for _, in := range []string{syms[0], syms[1], syms[0], syms[2] + "z", syms[1] + "q", syms[0] + syms[1], syms[3] + "x", syms[0], pre[:plen-1], syms[2]} {
+			ins = append(ins, sx.S(in))
+		}
+		ctx.Count("long-sibling-symbols")
+		ctx.Input(sx.L(regs, ins), true)
+	}
 	// random larger sets over a richer alphabet
 	alpha := []rune{'a', 'b', '<', '=', '>', 'é', '日', 'ÿ', 'þ', 'Ā', 0xFFFE}
 	rstr := func(max int) string {
